@@ -151,6 +151,7 @@ def declRun (s : DState) : List String → List String
           else ["bad-op"])
     | ["grp", _] => "ok" :: declRun s rest
     | ["move"] => "ok" :: declRun s rest
+    | ["movea"] => "ok" :: declRun s rest      -- move-assigned over another parser: as neutral as move construction
     | ["probe", argv] =>
       (match unhexList argv with
         | some argv => probeStr s argv :: declRun s rest
